@@ -13,6 +13,23 @@ use crate::{
 };
 
 pub fn encode(lens: &[usize], src: &[u8]) -> io::Result<Vec<u8>> {
+    // The model is driven by the record lengths: there must be at least one record, a record
+    // cannot be empty (its length is coded when the position counter reaches 0), and the records
+    // must make up the input.
+    let is_valid_layout = !lens.is_empty()
+        && lens.iter().all(|&len| len > 0)
+        && lens
+            .iter()
+            .try_fold(0usize, |sum, &len| sum.checked_add(len))
+            .is_some_and(|sum| sum == src.len());
+
+    if !is_valid_layout {
+        return Err(io::Error::new(
+            io::ErrorKind::InvalidInput,
+            "invalid record lengths",
+        ));
+    }
+
     let mut dst = Vec::new();
 
     let len =
